@@ -166,6 +166,7 @@ def check_metamodule(res, c):
     if c.index % 3 == 0 and len(raw) < 40000:
         siblings(res, m, desc)
     recount(res, m, desc)
+    unmap(res, m, desc)
     p = api.Project()
     p.attach_module(m)
     S_proj = build.norm_module(snapshot.snap_module(m, "project"), "before")
@@ -253,6 +254,41 @@ def recount(res, m, desc):
     got = [again.get_raw(f"user_defined_{i + 1}") for i in range(n)]
     if got != before:
         res.violation("C15:synth:/payload/user_values[]", f"stored user values {before[:6]} load back as {got[:6]} after the count was raised", desc)
+
+
+def unmap(res, m, desc):
+    """Exposed controllers whose mapping is taken away again (set to 'no target', or to a module that does not exist) and the
+    mappings re-derived: what the controllers read afterwards is what a saved and re-loaded copy reads."""
+    import random
+    cl = m.clone()
+    n = cl.user_defined_controllers
+    live = [i for i in range(min(n, 96)) if cl.mappings.values[i].module != 0]
+    if not live:
+        return
+    rng = random.Random(n * 7919 + len(live))
+    picked = rng.sample(live, min(3, len(live)))
+    for i in picked:
+        cl.mappings.values[i] = cl.Mapping(rng.choice([(0, 0), (0, 1), (len(cl.project.modules) + 3, 0)]))
+    cl.update_user_defined_controllers()
+    res.count("unmap_cases")
+    try:
+        before = [(getattr(cl, f"user_defined_{i + 1}"), cl.get_raw(f"user_defined_{i + 1}")) for i in range(n)]
+        again = cl.clone()
+    except Exception as e:
+        res.violation(f"C15:unloadable:{workload.exc_key(e)}", f"MetaModule does not save/load after mappings {picked} were removed: {e!r}", desc)
+        return
+    after = [(getattr(again, f"user_defined_{i + 1}"), again.get_raw(f"user_defined_{i + 1}")) for i in range(n)]
+    bad = [i for i in range(n) if _cmp(before[i]) != _cmp(after[i])]
+    if bad:
+        i = bad[0]
+        res.violation("C15:synth:/payload/user_values[]" if i not in picked else "C15:unmapped-controller-changes-on-reload",
+                      f"after removing the mappings of controllers {[k + 1 for k in picked]} and update: user_defined_{i + 1} reads {before[i]} (value, stored) "
+                      f"in memory and {after[i]} after save/load", desc)
+
+
+def _cmp(pair):
+    v, raw = pair
+    return (getattr(v, "value", v), raw)
 
 
 def make_case(seed, index, tier, max_nest):
